@@ -724,6 +724,29 @@ namespace Frappy.Poller
 
 /-! ## the start-up round, for the refresh bound -/
 
+theorem writeOne_step (env : Env) (hq : Quiet env) (i p j q : Nat) (σ : PollState) :
+    Step i p σ (writeOne env σ j q).σ := by
+  have h0 : Step i p σ { σ with pending := popPending σ.pending j q } :=
+    ⟨Nat.le_refl _, id, rfl, rfl, Nat.le_refl _⟩
+  have h1 := call_step env hq i p { σ with pending := popPending σ.pending j q } j (.write q)
+  have h2 : Step i p (call env { σ with pending := popPending σ.pending j q } j (.write q)).σ (writeOne env σ j q).σ :=
+    ⟨Nat.le_refl _, id, rfl, rfl, Nat.le_refl _⟩
+  exact (h0.trans h1).trans h2
+
+theorem writeParams_step (env : Env) (hq : Quiet env) (i p j : Nat) (ps : List Nat) : ∀ σ evs,
+    Step i p σ (writeParams env j ps σ evs).σ := by
+  induction ps with
+  | nil => intro σ evs; exact Step.refl i p σ
+  | cons q ps ih =>
+    intro σ evs
+    simp only [writeParams]
+    split
+    · exact (writeOne_step env hq i p j q σ).trans (ih _ _)
+    · exact ih _ _
+
+theorem writeInit_step (env : Env) (hq : Quiet env) (i p j : Nat) (σ : PollState) (evs : List Event) :
+    Step i p σ (writeInit env σ j evs).σ := writeParams_step env hq i p j _ σ evs
+
 theorem initAll_step (env : Env) (hq : Quiet env) (i p : Nat) (is : List Nat) : ∀ σ evs,
     Step i p σ (initAll env is σ evs).σ := by
   induction is with
@@ -731,7 +754,7 @@ theorem initAll_step (env : Env) (hq : Quiet env) (i p : Nat) (is : List Nat) : 
   | cons j is ih =>
     intro σ evs
     simp only [initAll]
-    have h2 := (call_step env hq i p σ j .write).trans (call_step env hq i p (call env σ j .write).σ j .init)
+    have h2 := (writeInit_step env hq i p j σ evs).trans (call_step env hq i p (writeInit env σ j evs).σ j .init)
     split
     · exact h2
     · exact h2.trans (ih _ _)
@@ -763,7 +786,7 @@ theorem lateAll_step (env : Env) (hq : Quiet env) (i p : Nat) (is : List Nat) : 
   | cons j is ih =>
     intro σ evs
     simp only [lateAll]
-    exact (call_step env hq i p σ j .write).trans (ih _ _)
+    exact (writeInit_step env hq i p j σ evs).trans (ih _ _)
 
 theorem startupRound_step (c : Consts) (env : Env) (hq : Quiet env) (i p : Nat) (σ : PollState) :
     Step i p σ (startupRound c env σ).σ := by
